@@ -107,7 +107,16 @@ def run(prop, tier, seed, replay=None):
         notes.append("hygiene: " + "; ".join(hyg[:5]))
     if missing_pa:
         notes.append("theorems without Print Assumptions: " + ", ".join(missing_pa))
-    proof_ok = not (proof_broken or bad_axioms or hyg or missing_pa or consts_broken)
+    chk = None
+    if tier == "thorough" and pr["ok"] and not replay:
+        ok_c, axs_c, summ_c = vlib.coqchk(prop.prop_file)
+        bad_c = [a for a in axs_c if a.split(".")[-1].split()[0] not in
+                 {x.split(".")[-1] for x in vlib.ALLOWED_AXIOMS}]
+        chk = {"clean": ok_c and not bad_c, "axioms": axs_c}
+        if not chk["clean"]:
+            notes.append("coqchk: " + summ_c[-800:])
+    proof_ok = not (proof_broken or bad_axioms or hyg or missing_pa or consts_broken
+                    or (chk is not None and not chk["clean"]))
 
     # (c) model driver + harness
     ok_d, out_d = vlib.build_driver(prop.model_name)
@@ -297,6 +306,7 @@ def run(prop, tier, seed, replay=None):
         "result_kinds": kinds,
         "harness_aborts": aborts,
         "release_profile_pass": impl_rel is not None,
+        "coqchk": chk,
         "notes": notes,
     }
     vlib.write_evidence(pid, tier, seed, coverage, prop.assumptions, time.time() - t0, n_viol)
